@@ -652,9 +652,8 @@ private theorem entry_map (rows : List (Expr V)) (f : Expr V → List (Expr V)) 
   simp only [entry, List.getElem?_map]
   cases rows[i]? <;> rfl
 
-/-- (partial: the loop body of `symGrad`, not the assembled matrix — full statement `C03_full_symGrad`)
-    **sym_grad** entry `(i, j)` is `½ (∂u_i/∂y_j + ∂u_j/∂y_i)` (square case) -/
-theorem symGrad_entry_partial (out : List (Expr V)) (vs : List (VarT V)) (i j : Nat) (o_i o_j : Expr V) (y_i y_j : V)
+/-- the loop body of `symGrad`: entry `(i, j)` is `½ (∂u_i/∂y_j + ∂u_j/∂y_i)` (square case) -/
+theorem symGrad_entry (out : List (Expr V)) (vs : List (VarT V)) (i j : Nat) (o_i o_j : Expr V) (y_i y_j : V)
     (hi : out[i]? = some o_i) (hj : out[j]? = some o_j)
     (hyi : vs.flatten[i]? = some y_i) (hyj : vs.flatten[j]? = some y_j) :
     (do let a ← entry (jac out vs) i j; let b ← entry (jac out vs) j i; pure (mul (const (1/2)) (add a b)) : Except String (Expr V))
@@ -682,11 +681,60 @@ theorem matrixDiv_spec (M : List (List (Expr V))) (vs : List (VarT V)) (h : ∀ 
     | cons a L ih => simp [ih]
   exact hflat M _
 
-/-- FULL STATEMENT, not proved: the assembled `sym_grad` matrix in the square case -/
-def C03_full_symGrad : Prop :=
-  ∀ (V : Type) [DecidableEq V] (out : List (Expr V)) (vs : List (VarT V)), out.length = vs.flatten.length →
-    symGrad out vs = .ok ((out.zip vs.flatten).map fun p =>
-      (out.zip vs.flatten).map fun q => mul (const (1/2)) (add (D q.2 p.1) (D p.2 q.1)))
+
+private theorem mapM_ok {α β : Type} (f : α → Except String β) (g : α → β) :
+    ∀ xs : List α, (∀ x ∈ xs, f x = .ok (g x)) → xs.mapM f = .ok (xs.map g)
+  | [], _ => rfl
+  | x :: xs, h => by
+    have h1 := h x (by simp)
+    have h2 := mapM_ok f g xs (fun a ha => h a (by simp [ha]))
+    simp only [List.mapM_cons, h1, h2, bind, Except.bind, pure, Except.pure, List.map_cons]
+
+/-- **sym_grad** (square case): the assembled matrix has entry `(i, j)` = `½ (∂u_i/∂y_j + ∂u_j/∂y_i)` -/
+theorem symGrad_spec (out : List (Expr V)) (vs : List (VarT V)) (h : out.length = vs.flatten.length) :
+    ∃ S : List (List (Expr V)), symGrad out vs = .ok S ∧ S.length = out.length ∧
+      ∀ (i j : Nat) (oi oj : Expr V) (yi yj : V), out[i]? = some oi → out[j]? = some oj → vs.flatten[i]? = some yi → vs.flatten[j]? = some yj →
+        ∃ row : List (Expr V), S[i]? = some row ∧ row.length = out.length ∧
+          row[j]? = some (mul (const (1/2)) (add (D yj oi) (D yi oj))) := by
+  let G : Nat → Nat → Expr V := fun i j =>
+    match out[i]?, out[j]?, vs.flatten[i]?, vs.flatten[j]? with
+    | some oi, some oj, some yi, some yj => mul (const (1/2)) (add (D yj oi) (D yi oj))
+    | _, _, _, _ => zero
+  have hlen : (jac out vs).length = out.length := by rw [jac_eq, List.length_map]
+  have hall : (jac out vs).all (fun r => r.length = out.length) = true := by
+    rw [List.all_eq_true]
+    intro r hr
+    rw [jac_eq, List.mem_map] at hr
+    obtain ⟨o, _, rfl⟩ := hr
+    simp only [List.length_map, h, decide_eq_true_eq]
+  have hbody : ∀ i ∈ List.range out.length, ∀ j ∈ List.range out.length,
+      (do let a ← entry (jac out vs) i j; let b ← entry (jac out vs) j i; pure (mul (const (1/2)) (add a b)) : Except String (Expr V))
+        = .ok (G i j) := by
+    intro i hi j hj
+    have hi' : i < out.length := List.mem_range.mp hi
+    have hj' : j < out.length := List.mem_range.mp hj
+    have e1 : out[i]? = some out[i] := List.getElem?_eq_getElem hi'
+    have e2 : out[j]? = some out[j] := List.getElem?_eq_getElem hj'
+    have e3 : vs.flatten[i]? = some (vs.flatten[i]'(h ▸ hi')) := List.getElem?_eq_getElem (h ▸ hi')
+    have e4 : vs.flatten[j]? = some (vs.flatten[j]'(h ▸ hj')) := List.getElem?_eq_getElem (h ▸ hj')
+    rw [symGrad_entry out vs i j _ _ _ _ e1 e2 e3 e4]
+    simp only [G, e1, e2, e3, e4]
+  refine ⟨(List.range out.length).map (fun i => (List.range out.length).map (G i)), ?_, by simp, ?_⟩
+  · rw [symGrad]
+    simp only [hall, if_true, hlen]
+    apply mapM_ok
+    intro i hi
+    apply mapM_ok
+    intro j hj
+    exact hbody i hi j hj
+  · intro i j oi oj yi yj h1 h2 h3 h4
+    have hi' : i < out.length := by
+      by_contra hc; rw [List.getElem?_eq_none (by omega)] at h1; cases h1
+    have hj' : j < out.length := by
+      by_contra hc; rw [List.getElem?_eq_none (by omega)] at h2; cases h2
+    refine ⟨(List.range out.length).map (G i), ?_, by simp, ?_⟩
+    · simp [List.getElem?_map, List.getElem?_range hi']
+    · simp only [List.getElem?_map, List.getElem?_range hj', Option.map_some, G, h1, h2, h3, h4]
 
 /-! ### `partial` of any order on the whole batch -/
 
@@ -784,7 +832,7 @@ theorem gradOld_raises_on_independent :
 /-- PINNED CODE: `laplacian(x₀·t, t)` raised (the `t`-gradient of a bilinear function no longer contains `t`);
     the analytic value, returned by the repaired operator, is 0 -/
 theorem laplacianOld_raises_on_bilinear :
-    laplacianOldBilinear (var X0) T0 = .error "unused" ∧
+    laplacianOld [mul (var X0) (var T0)] [[T0]] = .error "unused" ∧
     ∀ ρ : String × Nat → ℝ, (laplacian [mul (var X0) (var T0)] [[T0]]).map (eval ρ) = [0] := by
   refine ⟨by decide, fun ρ => ?_⟩
   rw [laplacian_spec]
